@@ -54,9 +54,12 @@ def index (s : GoSlice) (i : Nat) : Res UInt8 := goIndex s.vis i
 
 end GoSlice
 
-/-- platform / code variant. `intBits`: width of Go's `int`. `wide = false`: `validate` as it is in the
-    library (`len(buf[8:]) < dec.paddedLen()` in `int` arithmetic); `wide = true`: `validate` comparing the
-    32-bit length field in 64-bit unsigned arithmetic (the repair proposed for 32-bit platforms). -/
+/-- platform / code variant. `intBits`: width of Go's `int`. `wide = false`: `validate` as it WAS in the
+    library before ovh/kmip-go e776a13 (`len(buf[8:]) < dec.paddedLen()` in `int` arithmetic); `wide = true`:
+    `validate` comparing the 32-bit length field in 64-bit unsigned arithmetic — the library as it is since
+    e776a13 (`uint64(len(dec.buf[8:])) < paddedLen64(dec.declaredLen())`). With a 64-bit `int` the two
+    variants compute the same thing (both equal the abstract decoder: `slice_level_refines`,
+    `wide_validate_any_platform`). -/
 structure GoCfg where
   intBits : Nat
   wide : Bool
@@ -247,9 +250,10 @@ def unmarshalValue (cfg : GoCfg) (data : GoSlice) : Res Item := do
 
 end G
 
-/-- the 64-bit platforms the harness runs on, code as it is. -/
+/-- the 64-bit platforms the harness runs on, `validate` in `int` arithmetic (the code before e776a13; at 64
+    bits extensionally equal to the current code). -/
 def GoCfg.amd64 : GoCfg := { intBits := 64, wide := false }
-/-- a 32-bit platform (GOARCH=386, arm), code as it is. -/
+/-- a 32-bit platform (GOARCH=386, arm), the code as it was BEFORE the repair e776a13. -/
 def GoCfg.i386 : GoCfg := { intBits := 32, wide := false }
 
 end Kmip
